@@ -98,6 +98,9 @@ class Env:
         self.grown = 0
         self.last_tick = None
         self.outq_times = collections.deque()   # write instants, FIFO
+        self.tick_log = []
+        self.tick_reaped = []
+        self.tick_missing = None
         pk = dict(cfg.get('pool', {}))
         self.nprocs = cfg.get('procs', 2)
         if pk.get('putlocks'):
@@ -112,9 +115,12 @@ class Env:
         def step(now=None):
             env.restart_steps += 1
             try:
-                return orig_step(now)
+                r = orig_step(now)
+                env.tick_log.append(('step', True))
+                return r
             except bexc.RestartFreqExceeded:
                 env.steps_raised += 1
+                env.tick_log.append(('step', False))
                 raise
         rs.step = step
         if cfg.get('taskqueue', True):
@@ -156,6 +162,7 @@ class Env:
     def _launch(self, popen, process_obj, vp):
         self.workers[vp.pid] = SpecWorker(popen, process_obj, vp)
         self.forks += 1
+        self.tick_log.append(('fork', vp.pid))
 
     def _signal(self, p, sig):
         sig = int(sig)
@@ -581,15 +588,17 @@ class Env:
         pool = self.pool
         before = self.forks
         self.tick_raised = False
+        self.tick_log = []
+        self.tick_reaped = [w.status for w in self.workers.values()
+                            if not w.alive and w.vp.state == 'zombie' and
+                            w.pid in [p.pid for p in pool._pool]]
+        live = len(pool._pool) - len(self.tick_reaped)
+        self.tick_missing = pool._processes - live
         if pool._worker_handler._state == bp.RUN and pool._state == bp.RUN:
             try:
                 pool._maintain_pool()
             except bexc.RestartFreqExceeded:
                 self.tick_raised = True
-                if self.forks != before:
-                    raise Violation(
-                        'RestartFreqExceeded raised after forking in the '
-                        'same supervision round')
         elif pool._state == bp.CLOSE:
             # what ResultHandler.finish_at_shutdown does once per round
             # while jobs are still cached
